@@ -250,7 +250,7 @@ func checksumValue(value []byte) (uint64, error) {
 // NewSSTableReader creates a new reader. The sstable base path is mandatory:
 // > sstables.NewSSTableReader(sstables.ReadBasePath("some_path"))
 // This function will check hashes and validity of the datafile matching the index file.
-func NewSSTableReader(readerOptions ...ReadOption) (SSTableReaderI, error) {
+func NewSSTableReader(readerOptions ...ReadOption) (_ SSTableReaderI, err error) {
 	opts := &SSTableReaderOptions{
 		basePath: "",
 		// by default, we validate the integrity on loading and never checking when reading.
@@ -288,6 +288,14 @@ func NewSSTableReader(readerOptions ...ReadOption) (SSTableReaderI, error) {
 		return nil, fmt.Errorf("error while reading index of sstable in '%s': %w", opts.basePath, err)
 	}
 
+	// from here on everything that gets opened is owned by the reader, and released with it when a later step fails
+	reader := &SSTableReader{opts: opts, index: index, metaData: metaData}
+	defer func() {
+		if err != nil {
+			err = errors.Join(err, reader.Close())
+		}
+	}()
+
 	err = index.Open()
 	if err != nil {
 		return nil, fmt.Errorf("error while opening index of sstable in '%s': %w", opts.basePath, err)
@@ -298,7 +306,7 @@ func NewSSTableReader(readerOptions ...ReadOption) (SSTableReaderI, error) {
 		return nil, fmt.Errorf("error while reading filter of sstable in '%s': %w", opts.basePath, err)
 	}
 
-	reader := &SSTableReader{opts: opts, bloomFilter: filter, index: index, metaData: metaData}
+	reader.bloomFilter = filter
 
 	if metaData.Version == 0 {
 		v0DataReader, err := rProto.NewMMapProtoReaderWithPath(filepath.Join(opts.basePath, DataFileName))
@@ -306,34 +314,26 @@ func NewSSTableReader(readerOptions ...ReadOption) (SSTableReaderI, error) {
 			return nil, fmt.Errorf("error while creating proto data reader of sstable in '%s': %w", opts.basePath, err)
 		}
 
+		reader.v0DataReader = v0DataReader
 		err = v0DataReader.Open()
 		if err != nil {
 			return nil, fmt.Errorf("error while opening proto data reader of sstable in '%s': %w", opts.basePath, err)
 		}
-
-		reader.v0DataReader = v0DataReader
 	} else {
 		dataReader, err := recordio.NewMemoryMappedReaderWithPath(filepath.Join(opts.basePath, DataFileName))
 		if err != nil {
 			return nil, fmt.Errorf("error while creating data reader of sstable in '%s': %w", opts.basePath, err)
 		}
 
+		reader.dataReader = dataReader
 		err = dataReader.Open()
 		if err != nil {
 			return nil, fmt.Errorf("error while opening data reader of sstable in '%s': %w", opts.basePath, err)
 		}
-
-		reader.dataReader = dataReader
 	}
 
 	err = reader.validateDataFile()
 	if err != nil {
-		if reader.v0DataReader != nil {
-			err = errors.Join(err, reader.v0DataReader.Close())
-		}
-		if reader.dataReader != nil {
-			err = errors.Join(err, reader.dataReader.Close())
-		}
 		return nil, err
 	}
 
